@@ -124,6 +124,15 @@ type vent struct {
 	n      int
 }
 
+// Classes of the form <group>:<analyzer> are folded at flush time into <group>:any-analyzer when
+// the plain `standard` analyzer is among the affected ones (the root cause is then not the
+// analyzer); otherwise the analyzer stays in the class.
+const baselineAnalyzer = "standard"
+
+// causes of the directly driven highlighter, simplest first: a failure that already shows on
+// rune-aligned in-range locations absorbs the same failure (same site, same message) on harder input
+var directCauses = []string{"locations-on-rune-boundaries", "location-splits-rune", "invalid-utf8-value", "location-beyond-value"}
+
 type collector struct {
 	mu sync.Mutex
 	m  map[string]*vent
@@ -158,20 +167,62 @@ func (c *collector) seen(class string) bool {
 func (c *collector) flush(r *mc.Run) {
 	c.mu.Lock()
 	defer c.mu.Unlock()
-	for cl, e := range c.m {
-		if strings.HasPrefix(cl, "panic:") && strings.HasSuffix(cl, ":invalid-utf8") {
-			if v := c.m[strings.TrimSuffix(cl, ":invalid-utf8")+":valid"]; v != nil && v.sig == e.sig {
-				v.n += e.n
-				delete(c.m, cl)
+	merge := func(into, from string) {
+		a, b := c.m[into], c.m[from]
+		if b == nil || into == from {
+			return
+		}
+		if a == nil {
+			c.m[into] = b
+		} else {
+			a.n += b.n
+			if b.key.less(a.key) {
+				a.key, a.detail, a.replay, a.sig = b.key, b.detail, b.replay, b.sig
+			}
+		}
+		delete(c.m, from)
+	}
+	names := func() []string {
+		var cls []string
+		for cl := range c.m {
+			cls = append(cls, cl)
+		}
+		sort.Strings(cls)
+		return cls
+	}
+	for _, cl := range names() {
+		e := c.m[cl]
+		switch {
+		case strings.HasPrefix(cl, "panic:") && strings.HasSuffix(cl, ":invalid-utf8"):
+			v := strings.TrimSuffix(cl, ":invalid-utf8") + ":valid"
+			if c.m[v] != nil && c.m[v].sig == e.sig {
+				merge(v, cl)
+			}
+		case strings.HasPrefix(cl, "panic:highlight:"):
+			for _, simple := range directCauses {
+				if strings.HasSuffix(cl, ":"+simple) {
+					break
+				}
+				i := strings.LastIndex(cl, ":")
+				v := cl[:i+1] + simple
+				if c.m[v] != nil && c.m[v].sig == e.sig {
+					merge(v, cl)
+					break
+				}
 			}
 		}
 	}
-	var cls []string
-	for cl := range c.m {
-		cls = append(cls, cl)
+	for _, cl := range names() {
+		if strings.HasSuffix(cl, "@"+baselineAnalyzer) {
+			g := strings.TrimSuffix(cl, "@"+baselineAnalyzer)
+			for _, o := range names() {
+				if strings.HasPrefix(o, g+"@") {
+					merge(g+"@any-analyzer", o)
+				}
+			}
+		}
 	}
-	sort.Strings(cls)
-	for _, cl := range cls {
+	for _, cl := range names() {
 		e := c.m[cl]
 		for i := 0; i < e.n; i++ {
 			r.Violation(cl, e.detail, e.replay)
@@ -1192,13 +1243,17 @@ func hlQueries() []hq {
 	return qs
 }
 
-// hlDocs: every 3-word text over the word alphabet × separators, array-valued documents, a long one.
-func hlDocs(words, seps []string) []interface{} {
+// hlDocs: every 3-word text over the word alphabet × seps3, every 2-word text × seps2,
+// array-valued documents, long ones.
+func hlDocs(words, seps3, seps2 []string) []interface{} {
 	var docs []interface{}
 	for _, a := range words {
 		for _, b := range words {
+			for _, s := range seps2 {
+				docs = append(docs, a+s+b)
+			}
 			for _, c := range words {
-				for _, s := range seps {
+				for _, s := range seps3 {
 					docs = append(docs, a+s+b+s+c)
 				}
 			}
@@ -1267,11 +1322,11 @@ func storedValues(v interface{}) []string {
 	return nil
 }
 
-func (c *ctx) phaseSearch(analyzers []hlAnalyzer, engines []bx.Engine, words, seps []string, hls, hls2 []hl, extraEngine map[string]bool) {
+func (c *ctx) phaseSearch(analyzers []hlAnalyzer, engines []bx.Engine, words, seps3, seps2 []string, hls, hls2 []hl, extraEngine map[string]bool) {
 	r := c.r
-	docs := hlDocs(words, seps)
+	docs := hlDocs(words, seps3, seps2)
 	qs := hlQueries()
-	r.Note("highlight_search_family", map[string]any{"documents": len(docs), "words": fmt.Sprintf("%q", words), "separators": fmt.Sprintf("%q", seps),
+	r.Note("highlight_search_family", map[string]any{"documents": len(docs), "words": fmt.Sprintf("%q", words), "separators_3_word_texts": fmt.Sprintf("%q", seps3), "separators_2_word_texts": fmt.Sprintf("%q", seps2),
 		"queries": len(qs), "highlighters": hls, "highlighters_on_second_engine": hls2, "analyzers": len(analyzers)})
 	type item struct {
 		a   hlAnalyzer
@@ -1338,16 +1393,36 @@ func (c *ctx) phaseSearch(analyzers []hlAnalyzer, engines []bx.Engine, words, se
 			return fmt.Sprintf("terminates:highlight-search:%s", it.a.name), d, map[string]any{"engine": it.eng.Name, "field_analyzer": it.a.name, "step": d}
 		}, func(prog *atomic.Int64) {
 			out := map[string]bool{}
-			var n, checked, skipped, nfr, sepOdd, nerr int64
+			var n, checked, skipped, nfr, sepOdd, nerr, dropped int64
 			step := int64(0)
 			cur.Store("indexing documents")
 			prog.Store(step)
 			idx := it.eng.Mk(m)
 			defer idx.Close()
+			// Indexing analyses on goroutines of bleve's analysis queue, where a panic cannot be
+			// recovered: analyse every value here first and leave out documents that panic
+			// (phase A reports analyzer panics on its own alphabet; these are reported too).
+			an := m.AnalyzerNamed(it.a.name)
 			var perr error
 			pv, st := mc.Try(func() {
 				b := idx.NewBatch()
 				for i, d := range docs {
+					bad := false
+					for _, v := range storedValues(d) {
+						pv1, st1 := mc.Try(func() { an.Analyze([]byte(v)) })
+						if pv1 != nil {
+							bad = true
+							dropped++
+							v := v
+							c.coll.add(fmt.Sprintf("panic:index-analysis:%s:%s@%s", panicSite(st1), utf8Cause(v), it.a.name), okey{len(v), i, k}, panicSig(pv1, st1), func() (string, any) {
+								return fmt.Sprintf("analyzer %s on field value %q: panic %v @ %s", it.a.name, v, pv1, mc.TrimStack(st1)), replayOf(hq{name: "(indexing)"}, hl{}, v)
+							})
+							break
+						}
+					}
+					if bad {
+						continue
+					}
 					if e := b.Index(docID(i), map[string]interface{}{"t": d}); e != nil {
 						perr = e
 						return
@@ -1356,23 +1431,16 @@ func (c *ctx) phaseSearch(analyzers []hlAnalyzer, engines []bx.Engine, words, se
 				perr = idx.Batch(b)
 			})
 			if pv != nil || perr != nil {
-				// analysis panics are phase A's business; find the document for the report
-				for i, d := range docs {
-					var e error
-					one := it.eng.Mk(m)
-					pv1, st1 := mc.Try(func() { e = one.Index(docID(i), map[string]interface{}{"t": d}) })
-					one.Close()
-					if pv1 != nil || e != nil {
-						c.coll.add(fmt.Sprintf("panic-or-error:index:%s", it.a.name), okey{i, k, 0}, "", func() (string, any) {
-							return fmt.Sprintf("indexing %q with analyzer %s on %s: panic %v error %v @ %s", d, it.a.name, it.eng.Name, pv1, e, mc.TrimStack(st1)), replayOf(hq{name: "(indexing)"}, hl{}, d)
-						})
-						break
-					}
-				}
-				_ = st
+				c.coll.add(fmt.Sprintf("panic-or-error:index@%s", it.a.name), okey{0, k, 0}, "", func() (string, any) {
+					return fmt.Sprintf("indexing the document family with analyzer %s on %s: panic %v error %v @ %s", it.a.name, it.eng.Name, pv, perr, mc.TrimStack(st)), replayOf(hq{name: "(indexing)"}, hl{}, nil)
+				})
 				out["hl|indexing-failed"] = true
 				c.outcome(out)
 				return
+			}
+			if dropped > 0 {
+				r.Count("documents_left_out_because_their_analysis_panics", dropped)
+				out["hl|document-analysis-panics"] = true
 			}
 			for qi, q := range qs {
 				for hi, h := range it.hls {
@@ -1388,7 +1456,7 @@ func (c *ctx) phaseSearch(analyzers []hlAnalyzer, engines []bx.Engine, words, se
 					pv, st := mc.Try(func() { res, err = idx.Search(mkReq(q, h, len(docs)+1)) })
 					if pv != nil {
 						site := panicSite(st)
-						class := fmt.Sprintf("panic:highlight-search:%s:%s", site, it.a.name)
+						class := fmt.Sprintf("panic:highlight-search:%s@%s", site, it.a.name)
 						var culprit interface{}
 						if !c.coll.seen(class) {
 							// find the first single document that reproduces it
@@ -1471,7 +1539,7 @@ func (c *ctx) phaseSearch(analyzers []hlAnalyzer, engines []bx.Engine, words, se
 								sepOdd++
 							}
 							if cause != "" {
-								class := fmt.Sprintf("highlight:%s:%s:%s", cause, h.formatter, it.a.name)
+								class := fmt.Sprintf("highlight:%s:%s@%s", cause, h.formatter, it.a.name)
 								idn, _ := strconv.Atoi(strings.TrimPrefix(hit.ID, "d"))
 								c.coll.add(class, okey{len(strings.Join(values, "")), idn, k*10000 + qi*100 + hi}, "", func() (string, any) {
 									return fmt.Sprintf("analyzer %s on %s, query %s, style %s (fragment size %d), stored value %q: %s", it.a.name, it.eng.Name, q.name, h.name, h.size, values, detail), replayOf(q, h, hit.Fields["t"])
@@ -1509,7 +1577,7 @@ func Run(r *mc.Run) {
 	c := &ctx{r: r, coll: &collector{m: map[string]*vent{}}, stall: mc.Pick(r, 60*time.Second, 120*time.Second),
 		outcomes: map[string]bool{}, observed: map[string]int64{}, searchErrors: map[string]string{}}
 
-	r.Rule("E2. (A) every analyzer, tokenizer, token filter (on the output of each driver tokenizer) and char filter found in the registry at run time — components needing a configuration get the minimal ones listed under components_built — × every string of ≤ L symbols over the 14-symbol alphabet (see alphabet, string_length_bound_by_kind) plus long-token/repeated patterns: no panic, terminates, tokenizers satisfy 0 ≤ Start ≤ End ≤ len(input), starts non-decreasing, positions ≥ 1 and non-decreasing. (B) every registered highlighter and every formatter × fragment size {1,2,5}, driven directly on every short stored value × every single term location (also cutting runes, also up to 2 bytes beyond the value) and every pair of in-range locations: no panic. (C) real indexes whose field analyzer is a registered analyzer or one of 12 custom ones × all 3-word documents over a word alphabet (multi-byte words, '<b>', '&', apostrophe, camel case, empty word, invalid byte) × separators, array values, long texts × 18 queries × highlighters {html, ansi} × fragment sizes: no panic; where the char filters keep the length of the stored value, each fragment with separator, markup and escaping removed is a contiguous slice of the stored value placed consistently with the separators, every marked span is the bytes of a reported location (or the union of overlapping ones), and for analyzers that only split / drop / case-fold the marked text is the matched term. An outcome is (component kind, token-count bucket | char-filter length change | highlighter, fragment size, fragments, marks).")
+	r.Rule("E2. (A) every analyzer, tokenizer, token filter (on the output of each driver tokenizer) and char filter found in the registry at run time — components needing a configuration get the minimal ones listed under components_built — × every string of ≤ L symbols over the 14-symbol alphabet (see alphabet, string_length_bound_by_kind) plus long-token/repeated patterns: no panic, terminates, tokenizers satisfy 0 ≤ Start ≤ End ≤ len(input), starts non-decreasing, positions ≥ 1 and non-decreasing. (B) every registered highlighter and every fragmenter × formatter × fragment size {1,2,5}, driven directly on every short stored value × every single term location (also cutting runes, also up to 2 bytes beyond the value) and every pair of in-range locations: no panic. (C) real indexes whose field analyzer is a registered analyzer or one of 12 custom ones (camelCase, html, regexp/exception tokenizer, n-gram, edge n-gram, shingle, reverse, length-changing char filters) × all 3-word and 2-word documents over a word alphabet (multi-byte words, '<b>', '&', apostrophe, camel case, empty word, invalid byte) × separators, array values, long texts × 18 queries × highlighters {html, ansi} × fragment sizes {default, 1, 4, 11}: no panic; where the char filters keep the length of every stored value of the field, each fragment with separator, markup and escaping removed is a contiguous slice of a stored value, every marked span is the bytes of a reported location (or the union of overlapping ones), and for analyzers that only split / drop / case-fold, the marked text is the term reported for that location. An outcome is (component kind, token-count bucket | char-filter length change | highlighter, fragment size, fragments, marks).")
 	r.Assume(
 		"offset clauses are asserted for tokenizers only (as the statement says); token filters and analyzers are checked for panics/termination, their out-of-input offsets are counted under observed_not_asserted",
 		"termination = progress watchdog per batch: one evaluation that makes no progress for the stall budget ends the run with a terminates: violation",
@@ -1544,7 +1612,7 @@ func Run(r *mc.Run) {
 	// phase C
 	var named []hlAnalyzer
 	_, insts := registry.AnalyzerTypesAndInstances()
-	quickNamed := map[string]bool{"standard": true, "simple": true, "keyword": true, "en": true, "web": true, "cjk": true, "fa": true, "fr": true}
+	quickNamed := map[string]bool{"standard": true, "simple": true, "keyword": true, "en": true, "cjk": true, "fa": true}
 	var left []string
 	for _, n := range sorted(insts) {
 		if quick && !quickNamed[n] {
@@ -1557,8 +1625,9 @@ func Run(r *mc.Run) {
 		r.Note("highlight_named_analyzers_left_to_thorough_tier", left)
 	}
 	analyzers := append(named, customHL...)
-	words := mc.Pick(r, []string{"x", "y", "xy", "é", "日本", "<b>", "&", "a'b", ""}, []string{"x", "y", "xy", "é", "日本", "<b>", "&", "a'b", "", "éaB", "\xff"})
-	seps := mc.Pick(r, []string{" ", ", "}, []string{" ", ", ", "\n"})
+	words := mc.Pick(r, []string{"x", "y", "xy", "é", "日本", "<b>", "&", "a'b", "", "éaB"}, []string{"x", "y", "xy", "é", "日本", "<b>", "&", "a'b", "", "éaB", "\xff"})
+	seps3 := mc.Pick(r, []string{" "}, []string{" ", ", ", "\n"})
+	seps2 := mc.Pick(r, []string{", ", "\n"}, []string{"  ", "-"})
 	all := searchHighlighters(r, []int{1, 4, 11})
 	pick := func(names ...string) []hl {
 		var o []hl
@@ -1579,7 +1648,7 @@ func Run(r *mc.Run) {
 		"oracle": "fragment minus '…', <mark>, escaping is a slice of the stored value; marked span = bytes at a reported location = the term"})
 	if !r.Expired() {
 		t2 := time.Now()
-		c.phaseSearch(analyzers, bx.MemEngines, words, seps, hls, hls2, mc.Pick(r, map[string]bool{"standard": true, "c19_camel": true}, nil))
+		c.phaseSearch(analyzers, bx.MemEngines, words, seps3, seps2, hls, hls2, mc.Pick(r, map[string]bool{"standard": true, "c19_camel": true}, nil))
 		phaseWall["C_highlighting_through_search"] = time.Since(t2).Seconds()
 	}
 	if len(c.searchErrors) > 0 {
